@@ -390,8 +390,9 @@ def compiled_part(chk: Check, model, cv: CompiledView):
             if v[0] != "ite":
                 continue
             keys = {x[2][1] for x in T.walk(v[1]) if x[0] == "index" and x[2][0] == "const" and isinstance(x[2][1], str)} | {x[2] for x in T.walk(v[1]) if x[0] == "attr"}
-            keys |= {x[1].split(".")[0] for x in T.walk(v[1]) if x[0] == "sym"}  # (the per-node flag tables are parameters named like the settings)
             keys &= SETTINGS
+            if not keys:  # (no table of settings: the per-node flag tables, parameters named like the settings, are consulted directly)
+                keys = {x[1].split(".")[0] for x in T.walk(v[1]) if x[0] == "sym"} & SETTINGS
             srcs = {x[2] for x in T.walk(v[2]) if x[0] == "attr" and x[1] == S("graph_state")} | \
                    {x[1].split(".")[1] for x in T.walk(v[2]) if x[0] == "sym" and x[1].startswith("graph_state.")}
             if not keys or not srcs:
